@@ -48,6 +48,12 @@ type Op struct {
 	User bool   `json:"user,omitempty"`
 	I    int    `json:"i,omitempty"`   // copy: chain position on the source (1 = base)
 	Widen bool  `json:"widen,omitempty"` // bw: what a controller that completes partial blocks itself would send (rehearsal of patch f13)
+	// cloneinfo / reload: while the call runs, a directory stands at <file>.tmp, so that the one metadata write
+	// that goes through that temp file fails ("volume": volume.meta, "head": the head's .meta); removed afterwards.
+	// A step that reports the failure is repeated without the obstacle when Retry is set, else the flow stops
+	// there (what sync.CloneReplica / reloadAndVerify do with an error: return it).
+	Obst  string `json:"obst,omitempty"`
+	Retry bool   `json:"retry,omitempty"`
 	Mid  []Op   `json:"mid,omitempty"` // ulm: writes performed between the two critical sections
 	Race []Op   `json:"race,omitempty"` // ulmrace: writes issued by a concurrent writer
 }
@@ -90,6 +96,7 @@ type Out struct {
 	Dst    *Side        `json:"dst,omitempty"`
 	SnapRv int64        `json:"snaprev"` // clone: revision counter recorded for S on the source
 	Raced  int          `json:"raced"`   // ulmrace: writes that overlapped the UpdateLUNMap call
+	Stopped bool        `json:"stopped"` // an obstructed step reported its failure and the flow ended there
 	Err    string       `json:"err,omitempty"`
 }
 
@@ -492,6 +499,25 @@ func (r *runner) event(op Op) error {
 	return fmt.Errorf("unknown event %s", op.K)
 }
 
+// obstructed runs one step while a directory stands where the step's metadata temp file goes
+func (r *runner) obstructed(op Op) error {
+	name := "volume.meta"
+	if op.Obst == "head" {
+		if rep := r.dst.Replica(); rep != nil {
+			name = rep.Info().Head + ".meta"
+		}
+	}
+	ob := filepath.Join(r.ddir, name+".tmp")
+	if err := os.Mkdir(ob, 0700); err != nil {
+		return fmt.Errorf("obstacle: %v", err)
+	}
+	plain := op
+	plain.Obst = ""
+	err := r.event(plain)
+	os.Remove(ob)
+	return err
+}
+
 // ulm runs the real Server.UpdateLUNMap with the writes of op.Mid landing between its two critical
 // sections, without any hook: Server embeds its RWMutex, so the harness can hold the read lock the way
 // Server.WriteAt does.  (1) the harness holds RLock and starts UpdateLUNMap, which waits in its first
@@ -601,7 +627,9 @@ func (r *runner) ulmRace(op Op) error {
 	return err
 }
 
-func (r *runner) side(s *replica.Server, dir, tag string) (*Side, error) {
+// lite: only what the replica serves and its counter (the flow stopped half-way: the directory is not
+// meant to be opened)
+func (r *runner) side(s *replica.Server, dir, tag string, lite bool) (*Side, error) {
 	hx.QuiesceHoles()
 	rep := s.Replica()
 	if rep == nil {
@@ -614,6 +642,13 @@ func (r *runner) side(s *replica.Server, dir, tag string) (*Side, error) {
 		return nil, fmt.Errorf("%s: full read: %v", tag, err)
 	}
 	o.Live = r.intern(live)
+	if lite {
+		o.Fresh = o.Live
+		if rv, err := s.GetRevisionCounter(); err == nil {
+			o.Rev = rv
+		}
+		return o, nil
+	}
 	ch := chainOf(s)
 	disks := rep.ListDisks()
 	for _, d := range ch {
@@ -763,8 +798,24 @@ func runCase(c Case, work string) (out Out) {
 	}
 	r.dstPunch = false // sync.AddReplica: types.ShouldPunchHoles = false in the rebuilding process
 	for i, ev := range c.Ev {
-		err := r.event(ev)
-		out.Res = append(out.Res, rc(err))
+		var err error
+		if ev.Obst != "" {
+			err = r.obstructed(ev)
+			out.Res = append(out.Res, rc(err))
+			if err != nil {
+				if !ev.Retry {
+					out.Stopped = true
+					break
+				}
+				plain := ev
+				plain.Obst = ""
+				err = r.event(plain)
+				out.Res = append(out.Res, rc(err))
+			}
+		} else {
+			err = r.event(ev)
+			out.Res = append(out.Res, rc(err))
+		}
 		if err != nil {
 			out.Err = fmt.Sprintf("event %d (%s): %v", i, ev.K, err)
 			break
@@ -772,9 +823,9 @@ func runCase(c Case, work string) (out Out) {
 	}
 	out.Raced = r.raced
 	if out.Err == "" {
-		if out.Src, err = r.side(r.src, r.sdir, "src"); err != nil {
+		if out.Src, err = r.side(r.src, r.sdir, "src", false); err != nil {
 			out.Err = err.Error()
-		} else if out.Dst, err = r.side(r.dst, r.ddir, "dst"); err != nil {
+		} else if out.Dst, err = r.side(r.dst, r.ddir, "dst", out.Stopped); err != nil {
 			out.Err = err.Error()
 		}
 	}
